@@ -1083,33 +1083,35 @@ impl Vm {
     fn jump_finally_impl(&mut self) {
         let return_value = self.peek(0);
         self.pop();
-        let (new_ip, init_stack_size) = {
-            let handler = self
-                .active_fiber_mut()
-                .pop_exc_handler()
-                .expect("Expected ExcHandler.");
-            (handler.finally_ip, handler.init_stack_size)
-        };
+        let handler = self
+            .active_fiber_mut()
+            .pop_exc_handler()
+            .expect("Expected ExcHandler.");
         let return_ip = self.ip;
         {
             let mut fiber = self.active_fiber_mut();
+            fiber.drop_abandoned_pending_returns(return_ip);
             let pending = object::PendingReturn {
                 value: return_value,
                 ip: return_ip,
                 rethrow: false,
                 frame_count: fiber.frames.len(),
-                handler_depth: fiber.exc_handlers.len(),
-                nested_trys: 0,
+                block_start: handler.finally_ip,
+                block_end: handler.end_ip,
             };
             fiber.pending_returns.push(pending);
         }
-        self.active_fiber_mut().close_upvalues(init_stack_size);
-        self.active_fiber_mut().stack.truncate(init_stack_size);
-        self.ip = new_ip;
+        self.active_fiber_mut()
+            .close_upvalues(handler.init_stack_size);
+        self.active_fiber_mut()
+            .stack
+            .truncate(handler.init_stack_size);
+        self.ip = handler.finally_ip;
     }
 
     fn end_finally_impl(&mut self) -> Result<(), Error> {
-        let pending = self.active_fiber_mut().take_return_data();
+        let ip = self.ip;
+        let pending = self.active_fiber_mut().take_return_data(ip);
         if let Some(pending) = pending {
             self.push(pending.value);
             if pending.rethrow {
@@ -1127,11 +1129,16 @@ impl Vm {
         let try_size = self.read_short() as usize;
         let catch_size = self.read_short() as usize;
 
+        let statement_size = self.read_short() as usize;
+
         let catch_ip = unsafe { self.ip.offset(try_size as isize) };
         let finally_ip = unsafe { self.ip.offset((try_size + catch_size) as isize) };
+        let end_ip = unsafe { self.ip.offset(statement_size as isize) };
 
+        let ip = self.ip;
+        self.active_fiber_mut().drop_abandoned_pending_returns(ip);
         self.active_fiber_mut()
-            .push_exc_handler(catch_ip, finally_ip);
+            .push_exc_handler(catch_ip, finally_ip, end_ip);
     }
 
     fn pop_exc_handler_impl(&mut self) {
@@ -1615,8 +1622,8 @@ impl Vm {
                 ip: failure_site,
                 rethrow: true,
                 frame_count: handler.frame_count,
-                handler_depth: fiber.exc_handlers.len(),
-                nested_trys: 0,
+                block_start: handler.finally_ip,
+                block_end: handler.end_ip,
             };
             fiber.pending_returns.push(pending);
         }
